@@ -48,5 +48,5 @@ Theorem C14_one_pong_per_ping_in_order : forall cf app, passive app -> zpos (c_p
   idle c open -> data_head open -> Forall plain fs -> forms_ok fs lfs ->
   ref_messages open fs = Some (ms, open') -> concat ds = encode_all fs lfs -> wok c ->
   exists c', feed_chunks cf app c ds = (c', SOk) /\ wok c' /\ writes (k_tr c') = rev (pong_replies ms) ++ writes (k_tr c).
-Proof. exact pongs_in_order. Qed.
+Proof. exact pongs_in_order_passive. Qed.
 Print Assumptions C14_one_pong_per_ping_in_order.
